@@ -920,8 +920,12 @@ class TextXVisitor(RRELVisitor):
                     if "eolterm" in modifiers:
                         rule.eolterm = True
 
-        # Mark rule for suppression
-        rule.suppress = suppress
+        # Mark rule for suppression. A parenthesized single expression is
+        # reduced to that expression: keep a suppression given inside of
+        # the parentheses.
+        rule.suppress = suppress or (
+            rule is expr and getattr(expr, "suppress", False)
+        )
 
         return rule
 
